@@ -20,7 +20,7 @@
  "name": "dump_file",
  "props": ["C18"],
  "level": "U/iter",
- "tier": "wip",
+ "tier": "quick",
  "tier_after_hooks": "quick",
  "harness": "h_dump_file",
  "loop_contracts": true,
